@@ -10,6 +10,7 @@ PROP=$(python3 -c "import json;print(json.load(open('$META'))['property'])")
 LBL=$(basename $D)
 DDIR=$(python3 -c "import json;print(json.load(open('$META')).get('demo_dir','ecs'))")
 DTEST=$(python3 -c "import json;print(json.load(open('$META')).get('demo_test',''))")
+DTAGS=$(python3 -c "import json;t=json.load(open('$META')).get('demo_tags','');print(('-tags '+(t if isinstance(t,str) else ','.join(t))) if t else '')")
 WT=/tmp/seedcheck-$$
 G="env GOFLAGS= GOPROXY=off GOSUMDB=off GOTOOLCHAIN=local"
 git -C /repo worktree add -q --detach $WT HEAD || exit 2
@@ -18,9 +19,9 @@ if ! git apply $PATCH 2>/tmp/apply.err && ! git apply --3way $PATCH 2>>/tmp/appl
 git diff HEAD > /tmp/seed-rebased-$LBL-$N.diff
 suite=$($G go test -vet=off -count=1 ./... 2>&1 | grep -v "^ok\|no test files" | head -5)
 cp $DEMO $WT/$DDIR/zz_seed_demo_test.go
-demo_with=$($G go test -vet=off -count=1 -run "^$DTEST\$" ./$DDIR/ 2>&1 | tail -1)
+demo_with=$($G go test $DTAGS -vet=off -count=1 -run "^$DTEST\$" ./$DDIR/ 2>&1 | tail -1)
 git reset -q --hard HEAD
-demo_without=$($G go test -vet=off -count=1 -run "^$DTEST\$" ./$DDIR/ 2>&1 | tail -1)
+demo_without=$($G go test $DTAGS -vet=off -count=1 -run "^$DTEST\$" ./$DDIR/ 2>&1 | tail -1)
 cd /; git -C /repo worktree remove --force $WT; rm -rf $WT
 echo "CONFIRM $LBL/$N suite_failures=[${suite}] demo_with_patch=[${demo_with}] demo_without=[${demo_without}]"
 PROPS=${@:-$PROP}
